@@ -42,6 +42,7 @@ type Case struct {
 	Skip   []int        `json:"skip,omitempty"` // skipable per column (0 unset, 1 true, 2 false)
 	Pre    int          `json:"pre,omitempty"`
 	Props  []gen.PropOp `json:"props,omitempty"`  // a property history on the columns, after Align and Skip
+	Churn  int          `json:"churn,omitempty"` // before anything is compared the finished table is rendered that many times through package-level functions (fresh wrappers each time): as text if the count is even, as Markdown if it is odd
 	AppCB  int          `json:"appcb,omitempty"` // an application's own render-time cell callback, registered right after the table is created: 1 it reports an error for every other cell, 2 it never fails
 	Shadow bool         `json:"shadow,omitempty"` // the application has registered decorations of its own under the names of the formats (process-wide)
 	Poison bool         `json:"poison,omitempty"` // first, a sibling table is rendered in the target format and fails part-way  // >0: a long-lived target wrapper is created and rendered after Pre-1 operations, and rendered again at the end
@@ -328,6 +329,14 @@ func CheckCase(c Case) *ev.Violation {
 		return stepViolation
 	}
 	settings(t, c)
+	// a table that has been on screen for a long time: rendered again and again, each time through new wrappers
+	for i := 0; i < c.Churn; i++ {
+		if c.Churn%2 == 0 {
+			texttable.RenderTo(t, io.Discard) // an even count: always as text
+		} else {
+			markdown.RenderTo(t, io.Discard) // an odd count: always as Markdown
+		}
+	}
 	cmp := func(route, out string, err error) *ev.Violation {
 		if (err != nil) != (wantErr != nil) {
 			return ev.V("%s: error %v, but the same content on a core table gives error %v", route, err, wantErr)
@@ -465,6 +474,9 @@ func Classify(c Case) (bool, interface{}, []string) {
 	}
 	if c.AppCB == 1 {
 		cl = append(cl, "application-callback-that-reports-errors")
+	}
+	if c.Churn > 0 {
+		cl = append(cl, "rendered-many-times-before")
 	}
 	if c.Shadow {
 		cl = append(cl, "decorations-registered-under-format-names")
